@@ -87,6 +87,7 @@ type G struct {
 	scope []*binding
 	loops []string // loop variables in scope
 	marks []int    // scope length at the start of each open block
+	echo  []echoExpr
 	nlet  int
 	// for bundle generation
 	bundle  *ref.Bundle
@@ -282,9 +283,110 @@ func (g *G) maybeParen(e ref.Expr) ref.Expr {
 	return e
 }
 
-// Expr generates a well-typed expression of type t.
+// Expr generates a well-typed expression of type t. Now and then it repeats an expression generated earlier
+// in the same template (same source text, possibly a different scope: shadowing makes that interesting).
 func (g *G) Expr(t Ty, depth int) ref.Expr {
-	return g.maybeParen(g.expr(t, depth))
+	if len(g.echo) > 0 && g.R.P(1, 6) {
+		c := g.echo[g.R.Intn(len(g.echo))]
+		if sameTy(c.ty, t) && g.echoUsable(c) {
+			for _, b := range g.visible() {
+				if c.vars[b.name] {
+					b.used = true
+				}
+			}
+			return c.e
+		}
+	}
+	e := g.maybeParen(g.expr(t, depth))
+	if depth >= 1 && len(g.echo) < 40 {
+		vars := map[string]bool{}
+		exprVarsOf(e, vars)
+		if len(vars) > 0 {
+			tys := map[string]Ty{}
+			ok := true
+			for _, b := range g.visible() {
+				if vars[b.name] {
+					tys[b.name] = b.ty
+					if b.optional {
+						ok = false
+					}
+				}
+			}
+			if ok && len(tys) == len(vars) {
+				g.echo = append(g.echo, echoExpr{e: e, ty: t, vars: vars, tys: tys, loops: append([]string{}, g.loops...)})
+			}
+		}
+	}
+	return e
+}
+
+type echoExpr struct {
+	e     ref.Expr
+	ty    Ty
+	vars  map[string]bool
+	tys   map[string]Ty
+	loops []string
+}
+
+// echoUsable: every variable of the expression is visible here with the same type (and is not optional),
+// and the loop functions it may contain refer to loops that are still open.
+func (g *G) echoUsable(c echoExpr) bool {
+	vis := map[string]*binding{}
+	for _, b := range g.visible() {
+		vis[b.name] = b
+	}
+	for name, ty := range c.tys {
+		b, ok := vis[name]
+		if !ok || b.optional || !sameTy(b.ty, ty) {
+			return false
+		}
+	}
+	if len(c.loops) > len(g.loops) {
+		return false
+	}
+	for i, l := range c.loops {
+		if g.loops[i] != l {
+			return false
+		}
+	}
+	return true
+}
+
+func exprVarsOf(e ref.Expr, into map[string]bool) {
+	switch e := e.(type) {
+	case *ref.Paren:
+		exprVarsOf(e.X, into)
+	case *ref.DataRef:
+		if e.Name != "ij" {
+			into[e.Name] = true
+		}
+		for _, a := range e.Acc {
+			if a.Kind == 2 {
+				exprVarsOf(a.Arg, into)
+			}
+		}
+	case *ref.Unary:
+		exprVarsOf(e.X, into)
+	case *ref.Binary:
+		exprVarsOf(e.L, into)
+		exprVarsOf(e.R, into)
+	case *ref.Tern:
+		exprVarsOf(e.C, into)
+		exprVarsOf(e.A, into)
+		exprVarsOf(e.B, into)
+	case *ref.Call:
+		for _, a := range e.Args {
+			exprVarsOf(a, into)
+		}
+	case *ref.ListLit:
+		for _, a := range e.Items {
+			exprVarsOf(a, into)
+		}
+	case *ref.MapLit:
+		for _, a := range e.Vals {
+			exprVarsOf(a, into)
+		}
+	}
 }
 
 func (g *G) expr(t Ty, depth int) ref.Expr {
